@@ -15,7 +15,7 @@ import (
 
 func NewEngine(ld *Loader) *Engine {
 	eng := &Engine{prog: ld.prog, ld: ld, specs: map[string]*FuncSpec{}, stable: map[string]bool{}, ghostVars: map[string]bool{},
-		guarded: map[string]string{}, dropped: map[string]int{}, assumes: map[string]bool{}, maxInline: 3, inlineMax: 60}
+		guarded: map[string]*guardInfo{}, dropped: map[string]int{}, assumes: map[string]bool{}, maxInline: 3, inlineMax: 60}
 	eng.opaque = map[string]bool{}
 	for path, ps := range ld.pkgSpecs {
 		for _, o := range ps.Opaque {
